@@ -16,6 +16,8 @@ fn gen(r: &mut Rng, _cfg: &RunCfg) -> Case {
         match r.below(8) {
             0..=1 => s.push_str(if r.chance(1, 4) { "\r\n" } else { "\n" }),
             2 => s.push_str(*r.pick(&[" ", "  ", "\t", "\u{a0}", " \t "])),
+            // invisible characters that are not whitespace (a line made of them is not blank)
+            3 if r.coin() => s.push_str(*r.pick(&["\u{1b}", "\0", "\u{7}", "\u{1c}", "\u{1f}", "\u{7f}", "\u{200b}", "\u{feff}", "\u{180e}", "\u{2060}", "\u{ad}"])),
             _ => {
                 s.push_str(&m.token(r));
                 if r.coin() {
